@@ -755,6 +755,90 @@ func C18(c *core.Ctx) {
 		c.Decide(nAdd > 0 && bad == "", "R18.8", "cost-bounded-before-addition", p.Pos(ru.Pos()), fmt.Sprintf("%d additions to an advertised cost, each behind 'advertised cost < infinity'", nAdd), "ribUpdate adds the link cost to "+bad+" before that cost was compared with infinity: the wire-valid cost 2^64-1 wraps around to 0, the destination is installed as a cost-0 route and re-advertised with cost 0")
 	}
 
+	// ---- R18.16 a Sync Interest that is ignored does not keep the neighbour alive for ever.
+	// RecvPing ignores a passive ping from another face while the neighbour is marked active
+	// on its current face. If every ping refreshes lastSeen first, a neighbour whose active
+	// face is gone (the link was re-created from the other end) is never declared dead and
+	// never re-homed: its routes stay on the destroyed face and no advertisement of it can be
+	// fetched again — the tables freeze. Either the precedence expires (the ignoring branch
+	// is also behind a comparison of times), or the ignored ping does not refresh lastSeen.
+	if rp := c.Fn("R18.16", "dv/table", "NeighborState", "RecvPing"); rp != nil && len(rp.Params) >= 3 {
+		active := ssa.Value(rp.Params[2])
+		var seenStores []ssa.Instruction
+		core.Instrs(rp, func(in ssa.Instruction) {
+			if _, _, ok := storeToField(in, "NeighborState", "lastSeen"); ok {
+				seenStores = append(seenStores, in)
+			}
+		})
+		// the ignoring return: (nil, false) in a block that lies behind "active is false"
+		var ignores []*ssa.Return
+		core.Instrs(rp, func(in ssa.Instruction) {
+			r, ok := in.(*ssa.Return)
+			if !ok || len(r.Results) != 2 {
+				return
+			}
+			if b, isC := core.ConstBool(r.Results[1]); !isC || b {
+				return
+			}
+			for d := r.Block(); d != nil && d.Idom() != nil; d = d.Idom() {
+				id := d.Idom()
+				iff, isIf := id.Instrs[len(id.Instrs)-1].(*ssa.If)
+				if !isIf || len(d.Preds) != 1 {
+					continue
+				}
+				if core.Strip(iff.Cond) == core.Strip(active) && id.Succs[1] == d {
+					ignores = append(ignores, r)
+					return
+				}
+			}
+		})
+		if len(ignores) == 0 {
+			c.Ok("R18.16", "ignored-ping-does-not-keep-alive", p.Pos(rp.Pos()), "RecvPing ignores no ping")
+		}
+		for i, r := range ignores {
+			timed := false
+			for d := r.Block(); d != nil && d.Idom() != nil; d = d.Idom() {
+				id := d.Idom()
+				iff, isIf := id.Instrs[len(id.Instrs)-1].(*ssa.If)
+				if !isIf {
+					continue
+				}
+				var walk func(v ssa.Value, n int)
+				walk = func(v ssa.Value, n int) {
+					if n > 5 || timed {
+						return
+					}
+					switch y := core.Strip(v).(type) {
+					case *ssa.Call:
+						if id2, okID := core.Callee(&y.Call); okID && id2.Pkg == "time" {
+							timed = true
+						}
+						for _, a := range y.Call.Args {
+							walk(a, n+1)
+						}
+					case *ssa.BinOp:
+						walk(y.X, n+1)
+						walk(y.Y, n+1)
+					case *ssa.UnOp:
+						walk(y.X, n+1)
+					case *ssa.Phi:
+						for _, e := range y.Edges {
+							walk(e, n+1)
+						}
+					}
+				}
+				walk(iff.Cond, 0)
+			}
+			refreshed := false
+			for _, st := range seenStores {
+				if core.ReachableFrom(core.After(st), r) {
+					refreshed = true
+				}
+			}
+			c.Decide(timed || !refreshed, "R18.16", fmt.Sprintf("ignored-ping-does-not-keep-alive#%d", i), c.Pos(r), "the precedence of the active face expires, or an ignored ping leaves lastSeen alone", "RecvPing refreshes lastSeen and then ignores a passive ping from another face for as long as the neighbour is marked active, with no expiry: after the link was re-created from the other end the neighbour is heard only passively on the new face, is never declared dead and never re-homed — its routes stay on the destroyed face, its advertisements can never be fetched again and the table freezes (destinations behind it are never learnt or never withdrawn)")
+		}
+	}
+
 	// ---- R18.15 a next hop that enters an entry's cost column has its name on record. The RIB
 	// stores next hops as hashes and turns them back into names through Rib.neighbors when it
 	// builds the advertisement: Rib.Set reaches RibEntry.Set only after it has found the next
